@@ -4,6 +4,7 @@
    fixes/C09-gridweighted-own-weight.diff), Model/Eval.v (evaluation). *)
 From Coq Require Import List QArith Reals Lra Lia Arith Bool.
 From NV Require Import Scalar.Ops Model.Common Model.Basis Model.Knots Model.Eval Model.Weights Proofs.BasisR Proofs.WeightsR.
+From NV Require Import Proofs.EvalR Proofs.WeightsUnit.
 Import ListNotations.
 
 (* [G] the helper conversions are mutually inverse (all nets, all non-zero weights) *)
@@ -170,3 +171,68 @@ Example C09_ex_grid :
    Ok GoNone;
    Ok (GoGrid [[[0;0;0;1];[0;2;0;2];[0;6;0;3]]; [[8;0;0;4];[10;5;0;5];[12;12;0;6]]]%Q)].
 Proof. vm_compute. reflexivity. Qed.
+
+(* ====================== round 2 (Proofs/WeightsUnit.v): unit weights give the same shape - curves, surfaces, volumes, every parameter ====================== *)
+(* [G] curves: every sorted knot vector, every u (closed domain included) -- this is the curve half of C09_unit_weights_same_shape_full *)
+Theorem C09_unit_weights_same_shape_curve : forall (U : list R) (P : list (list R)) (p dim : nat) (u : R),
+  sortedR U -> (p < length P)%nat -> (length P + p < length U)%nat ->
+  (forall i, (i < length P)%nat -> length (nth i P []) = dim) ->
+  (knR U p <= u <= knR U (length P))%R ->
+  project Rops (curve_point Rops (S dim) p U (to_rational Rops P) u) = curve_point Rops dim p U P u.
+Proof. exact unit_weights_curve_closed. Qed.
+Print Assumptions C09_unit_weights_same_shape_curve.
+
+Theorem C09_unit_weights_same_shape_curve_any_parameter : forall (U : list R) (P : list (list R)) (p dim : nat) (u : R),
+  sortedR U -> (p < length P)%nat -> (length P + p < length U)%nat ->
+  (forall i, (i < length P)%nat -> length (nth i P []) = dim) ->
+  project Rops (curve_point Rops (S dim) p U (to_rational Rops P) u) = curve_point Rops dim p U P u.
+Proof. exact unit_weights_curve_all. Qed.
+Print Assumptions C09_unit_weights_same_shape_curve_any_parameter.
+
+Theorem C09_unit_weights_same_shape_surface : forall (Uu Uv : list R) (P : list (list R)) (pu pv su sv dim : nat) (u v : R),
+  sortedR Uu -> sortedR Uv -> (forall i, (i < length P)%nat -> length (nth i P []) = dim) -> length P = (su * sv)%nat ->
+  (pu < su)%nat -> (pv < sv)%nat -> (su + pu < length Uu)%nat -> (sv + pv < length Uv)%nat ->
+  project Rops (surface_point Rops (S dim) pu pv Uu Uv su sv (to_rational Rops P) u v) = surface_point Rops dim pu pv Uu Uv su sv P u v.
+Proof. exact unit_weights_surface_all. Qed.
+Print Assumptions C09_unit_weights_same_shape_surface.
+
+Theorem C09_unit_weights_same_shape_volume : forall (Uu Uv Uw : list R) (P : list (list R)) (pu pv pw su sv sw dim : nat) (u v w : R),
+  sortedR Uu -> sortedR Uv -> sortedR Uw -> (forall i, (i < length P)%nat -> length (nth i P []) = dim) -> length P = (su * sv * sw)%nat ->
+  (pu < su)%nat -> (pv < sv)%nat -> (pw < sw)%nat ->
+  (su + pu < length Uu)%nat -> (sv + pv < length Uv)%nat -> (sw + pw < length Uw)%nat ->
+  project Rops (volume_point Rops (S dim) pu pv pw Uu Uv Uw su sv sw (to_rational Rops P) u v w) =
+  volume_point Rops dim pu pv pw Uu Uv Uw su sv sw P u v w.
+Proof. exact unit_weights_volume_all. Qed.
+Print Assumptions C09_unit_weights_same_shape_volume.
+
+(* the Definition C09_unit_weights_same_shape_full is false as written: its surface half has no hypotheses (ragged net) *)
+Theorem C09_unit_weights_same_shape_full_refuted : ~ C09_unit_weights_same_shape_full.
+Proof. intros [_ H]. exact (unit_weights_surface_unconditional_refuted H). Qed.
+Print Assumptions C09_unit_weights_same_shape_full_refuted.
+
+(* the repaired full statement (well-formed nets), curves + surfaces + volumes, closed domains *)
+Theorem C09_unit_weights_same_shape_wf : unit_weights_same_shape_wf.
+Proof. exact unit_weights_same_shape_wf_holds. Qed.
+Print Assumptions C09_unit_weights_same_shape_wf.
+
+(* object level: bspline_to_nurbs keeps degrees / knots / sizes, sets rational and installs the unit-weight net *)
+Theorem C09_bspline_to_nurbs_same_points_surface : forall (Uu Uv : list R) (P : list (list R)) (pu pv su sv dim : nat) (uv : R * R),
+  sortedR Uu -> sortedR Uv -> (forall i, (i < length P)%nat -> length (nth i P []) = dim) -> length P = (su * sv)%nat ->
+  (pu < su)%nat -> (pv < sv)%nat -> (su + pu < length Uu)%nat -> (sv + pv < length Uv)%nat ->
+  obj_surface_point Rops true dim pu pv Uu Uv su sv (to_rational Rops P) uv = obj_surface_point Rops false dim pu pv Uu Uv su sv P uv.
+Proof. exact unit_weights_obj_surface. Qed.
+Print Assumptions C09_bspline_to_nurbs_same_points_surface.
+Theorem C09_bspline_to_nurbs_same_points_volume : forall (Uu Uv Uw : list R) (P : list (list R)) (pu pv pw su sv sw dim : nat) (uvw : R * R * R),
+  sortedR Uu -> sortedR Uv -> sortedR Uw -> (forall i, (i < length P)%nat -> length (nth i P []) = dim) -> length P = (su * sv * sw)%nat ->
+  (pu < su)%nat -> (pv < sv)%nat -> (pw < sw)%nat ->
+  (su + pu < length Uu)%nat -> (sv + pv < length Uv)%nat -> (sw + pw < length Uw)%nat ->
+  obj_volume_point Rops true dim pu pv pw Uu Uv Uw su sv sw (to_rational Rops P) uvw = obj_volume_point Rops false dim pu pv pw Uu Uv Uw su sv sw P uvw.
+Proof. exact unit_weights_obj_volume. Qed.
+Print Assumptions C09_bspline_to_nurbs_same_points_volume.
+
+(* non-vacuity: a 3 x 2 bilinear/linear surface at the corner (1, 1) of the closed domain *)
+Example C09_ex_unit_weights_surface_corner :
+  let Uu := [0;0;1#2;1;1]%Q in let Uv := [0;0;1;1]%Q in let P := [[0;0;0];[0;1;1];[1;0;2];[1;1;0];[2;0;1];[2;1;3]]%Q in
+  project Qops (surface_point Qops 4 1 1 Uu Uv 3 2 (to_rational Qops P) 1%Q 1%Q) = surface_point Qops 3 1 1 Uu Uv 3 2 P 1%Q 1%Q /\
+  surface_point Qops 3 1 1 Uu Uv 3 2 P 1%Q 1%Q = [2;1;3]%Q.
+Proof. vm_compute. split; reflexivity. Qed.
